@@ -474,6 +474,11 @@ func checkC11(c *core.Ctx) {
 		"only the listed reported-error classes must fail per line (unknown soil id / field id, texture not in the tables in the first or in a deeper horizon, inconsistent texture fractions, gap in weather data, tillage between sowing and harvest, start year not matching the first harvest; and a multi-year weather file that does not exist, which the model reports as a run error in the same way)",
 		"termination: every session has a deadline of 10 minutes (a session of this size takes seconds)")
 	designBatch(c)
+	// the RPC front end's scheduler loop (Service.tla) runs beside the batch sessions
+	var svcWG sync.WaitGroup
+	svcWG.Add(1)
+	go func() { defer svcWG.Done(); serviceConformance(c) }()
+	defer svcWG.Wait()
 	bin, err := c.BuildRepoBin("hermes2go", true, false)
 	if err != nil {
 		c.Machineryf("%v", err)
@@ -531,6 +536,7 @@ func checkC11(c *core.Ctx) {
 	}
 	validateBatches(c, outs, c03Invariants, "C11")
 	terminationPart(c, bin, ws)
+	svcWG.Wait()
 	c.Cover("sessions", len(outs))
 	c.Distinct = c.TracesOK
 	c.Cover("rule", "one case per batch session (failure class x position x concurrency; mixed sessions) plus the fertiliser-prediction termination runs")
